@@ -1,6 +1,8 @@
 import LyModel.XPath.LemmasParse
 import LyModel.XPath.LemmasLex
 import LyModel.XPath.LemmasLexRt
+import LyModel.XPath.LemmasParseA
+import LyModel.XPath.LemmasLexRtA
 /-!
 # C08 — libyang's XPath tokenizer and parser against XPath 1.0 §3
 
@@ -34,6 +36,38 @@ theorem parse_render_roundtrip (e : Expr) (hw : wf e = true) (hh : height e ≤ 
   | error er => simp [h, Except.toOption] at hl
   | ok ts =>
     have : ts.map ptOf = rtoks e := by simpa [h, Except.toOption] using hl
+    simp [this, hp]
+
+/-- WHITE SPACE: the same for the text written with ANY non-empty string of blanks (space, tab, LF, CR — `Render.Blanks`) after
+each token instead of the single space of the canonical text (`Render.renderW`; nothing is inserted inside `axis::test`,
+where the unrepaired tokenizer accepts none — F351), after any amount of leading white space: `parse` does not depend on
+the amount or kind of white space between tokens. -/
+theorem parse_render_ws_roundtrip (e : Expr) (hw : wf e = true) (hh : height e ≤ XpConsts.maxBlockDepth)
+    (bs : List Bytes) (hb : Blanks bs) (lead : Bytes) (hl : ∀ c ∈ lead, Path.isWs c = true) :
+    parse (lead ++ renderW bs e) = some e := by
+  obtain ⟨ps, hp⟩ := LemmasParse.parseToks_rtoks e hw hh
+  have hlx := LemmasLexRt.lex_renderW_lead e hw bs hb lead hl
+  unfold parse parseFull
+  cases h : lex (lead ++ renderW bs e) with
+  | error er => simp [h, Except.toOption] at hlx
+  | ok ts =>
+    have : ts.map ptOf = rtoks e := by simpa [h, Except.toOption] using hlx
+    simp [this, hp]
+
+/-- non-vacuity: tabs, newlines and runs of blanks -/
+example : Blanks [[0x09], [0x0a, 0x20], [0x20, 0x20, 0x0d]] := by
+  intro b hb; simp at hb; rcases hb with rfl | rfl | rfl <;> exact ⟨by simp, by decide⟩
+
+/-- … also after any amount of leading white space (the canonical text itself ends with a blank) -/
+theorem parse_render_roundtrip_lead (e : Expr) (hw : wf e = true) (hh : height e ≤ XpConsts.maxBlockDepth) (lead : Bytes)
+    (hl : ∀ c ∈ lead, Path.isWs c = true) : parse (lead ++ render e) = some e := by
+  obtain ⟨ps, hp⟩ := LemmasParse.parseToks_rtoks e hw hh
+  have hlx := LemmasLexRt.lex_render_lead e hw lead hl
+  unfold parse parseFull
+  cases h : lex (lead ++ render e) with
+  | error er => simp [h, Except.toOption] at hlx
+  | ok ts =>
+    have : ts.map ptOf = rtoks e := by simpa [h, Except.toOption] using hlx
     simp [this, hp]
 
 /-- the tokenizer half on its own: the kinds and texts of the tokens of the canonical text are the renderer's tokens -/
@@ -76,6 +110,129 @@ theorem parse_fuel_sufficient (e : Expr) (hw : wf e = true) (hh : height e ≤ X
 example : (orExpr (fuelFor (rtoks sample).length) 0 (rtoks sample)).isSome = true :=
   parse_fuel_sufficient sample (by decide) (by decide)
 
+/-! ## REC §2.5 abbreviated syntax: every abbreviated token sequence is parsed exactly like its expansion
+
+Stated on the token level for EVERY continuation of the token list (not only canonical ones); the fuel offsets are the extra
+calls the longer form needs.  `selfNode` / `parentNode` / `dosNode` are the tokens of `self::node()`, `parent::node()`,
+`descendant-or-self::node()`. -/
+
+/-- ABBREVIATED SYNTAX, whole expressions (token level): the tokens of the abbreviated text of `e` — `Render.atoks`: `child::`
+omitted, `@` for `attribute::`, `.` for `self::node()` and `..` for `parent::node()` without predicates, everywhere in `e`
+— are parsed back to `e`, i.e. to the tree in which every abbreviation is expanded. -/
+theorem parse_tokens_abbrev_roundtrip (e : Expr) (hw : wf e = true) (hh : height e ≤ XpConsts.maxBlockDepth) :
+    ∃ pushes, parseToks (atoks e) = some (e, pushes) :=
+  LemmasParseA.parseToks_rtoks e hw hh
+
+/-- ABBREVIATED SYNTAX, whole expressions, on BYTES: `parse (lead ++ renderAW bs e) = some e` — the abbreviated text of `e`
+(`child::` omitted, `@`, `.`, `..` wherever they apply), written with any non-empty blank strings `bs` after its tokens and
+any leading blanks, denotes `e`, the tree with every abbreviation expanded.  Together with `parse_render_ws_roundtrip` (the
+unabbreviated text) and `abbrev_dslash_*` (`//`) this covers the abbreviations of REC §2.5. -/
+theorem parse_render_abbrev_roundtrip (e : Expr) (hw : wf e = true) (hh : height e ≤ XpConsts.maxBlockDepth)
+    (bs : List Bytes) (hb : Blanks bs) (lead : Bytes) (hl : ∀ c ∈ lead, Path.isWs c = true) :
+    parse (lead ++ renderAW bs e) = some e := by
+  obtain ⟨ps, hp⟩ := LemmasParseA.parseToks_rtoks e hw hh
+  have hlx := LemmasLexRtA.lex_renderW_lead e hw bs hb lead hl
+  unfold parse parseFull
+  cases h : lex (lead ++ renderAW bs e) with
+  | error er => simp [h, Except.toOption] at hlx
+  | ok ts =>
+    have : ts.map ptOf = atoks e := by simpa [h, Except.toOption] using hlx
+    simp [this, hp]
+
+/-- non-vacuity: `/a/@b[. = ../c]` — its abbreviated tokens differ from the canonical ones -/
+private def sampleA : Expr :=
+  .path .root [.mk .child (.name none [0x61]) [], .mk .attribute (.name none [0x62])
+    [.bin .eq (.path .ctx [.mk .self .node []]) (.path .ctx [.mk .parent .node [], .mk .child (.name none [0x63]) []])]]
+example : wf sampleA = true ∧ height sampleA ≤ XpConsts.maxBlockDepth ∧ (atoks sampleA).length = 12 ∧ (rtoks sampleA).length = 25 := by
+  decide
+/-- its abbreviated text with single blanks: `/ a / @ b [ . = .. / c ] ` -/
+example : renderAW [] sampleA = [47, 32, 97, 32, 47, 32, 64, 32, 98, 32, 91, 32, 46, 32, 61, 32, 46, 46, 32, 47, 32, 99, 32, 93, 32] := by
+  decide
+example : parse (renderAW [] sampleA) = some sampleA := by
+  simpa using parse_render_abbrev_roundtrip sampleA (by decide) (by decide) [] (by intro b hb; cases hb) [] (by intro c hc; cases hc)
+
+def stepToks (ax : Axis) : List PT := [(.axisname, axisBytes ax), tDcolon, (.nodetype, [0x6e, 0x6f, 0x64, 0x65]), tPar1, tPar2]
+
+/-- `.` is `self::node()` and `..` is `parent::node()` (REC §2.5), wherever no predicate follows (the grammar allows none
+after `.` / `..`) -/
+theorem abbrev_dot_ddot (f d : Nat) (tx : Bytes) (rest : List PT) (h : LemmasParse.NoBrack rest) :
+    step (f + 3) d ((.dot, tx) :: rest) = step (f + 3) d (stepToks .self ++ rest) ∧
+    step (f + 3) d ((.ddot, tx) :: rest) = step (f + 3) d (stepToks .parent ++ rest) := by
+  have hp := LemmasParse.preds_stop h f d
+  constructor <;>
+    simp [step, stepToks, tDcolon, tPar1, tPar2, LemmasTok.axisOf_axisBytes, nodeTest, hp, nodeTypeOf]
+
+/-- `@` is `attribute::` (REC §2.5), in front of anything -/
+theorem abbrev_at (f d : Nat) (tx : Bytes) (ts : List PT) :
+    step (f + 1) d ((.at, tx) :: ts) = step (f + 1) d ((.axisname, axisBytes .attribute) :: tDcolon :: ts) := by
+  simp [step, tDcolon, LemmasTok.axisOf_axisBytes]
+
+/-- a node test without an axis is on the `child::` axis (REC §2.5) -/
+theorem abbrev_child (f d : Nat) (tx : Bytes) (ts : List PT) :
+    step (f + 1) d ((.nametest, tx) :: ts) = step (f + 1) d ((.axisname, axisBytes .child) :: tDcolon :: (.nametest, tx) :: ts) ∧
+    step (f + 1) d ((.nodetype, tx) :: ts) = step (f + 1) d ((.axisname, axisBytes .child) :: tDcolon :: (.nodetype, tx) :: ts) := by
+  constructor <;> simp [step, tDcolon, LemmasTok.axisOf_axisBytes]
+
+/-- one step `descendant-or-self::node()` followed by `/`: what `reparse_relative_location_path` makes of it -/
+theorem relPath_dos (f d : Nat) (ts : List PT) :
+    relPath (f + 4) d (stepToks .descendantOrSelf ++ tSlash :: ts) =
+      match relPath (f + 3) d ts with
+      | none => none
+      | some (ss, p2, r3) => some (dosStep :: ss, [] ++ p2, r3) := by
+  have hn : LemmasParse.NoBrack (tSlash :: ts) := by
+    intro t r e; simp only [List.cons.injEq] at e; rw [← e.1]; simp [tSlash]
+  have hp := LemmasParse.preds_stop hn f d
+  simp only [tSlash] at hp
+  rw [relPath]
+  simp only [stepToks, List.cons_append, List.nil_append, step, tDcolon, tPar1, tPar2, tSlash, LemmasTok.axisOf_axisBytes, nodeTest,
+    hp, nodeTypeOf]
+  cases relPath (f + 3) d ts with
+  | none => rfl
+  | some r => obtain ⟨a, b, c⟩ := r; simp [dosStep]
+
+/-- `//` at the start of a path is `/descendant-or-self::node()/` (REC §2.5), in front of anything -/
+theorem abbrev_dslash_abs (f d : Nat) (tx : Bytes) (ts : List PT) :
+    (pathExpr (f + 4) d ((.operRpath, tx) :: ts)).map (fun r => (r.1, r.2.2)) =
+      (pathExpr (f + 5) d (tSlash :: (stepToks .descendantOrSelf ++ tSlash :: ts))).map (fun r => (r.1, r.2.2)) := by
+  have e : pathExpr (f + 5) d (tSlash :: (stepToks .descendantOrSelf ++ tSlash :: ts)) =
+      match relPath (f + 4) d (stepToks .descendantOrSelf ++ tSlash :: ts) with
+      | none => none
+      | some (steps, p, r1) => some (.path .root steps, p, r1) := by
+    simp only [pathExpr, tSlash, stepToks, List.cons_append, List.nil_append, isStepStart]
+    rfl
+  rw [e, relPath_dos]
+  simp only [pathExpr]
+  cases relPath (f + 3) d ts with
+  | none => rfl
+  | some r => obtain ⟨a, b, c⟩ := r; simp
+
+/-- `//` inside a path is `/descendant-or-self::node()/` (REC §2.5): after any step, in front of anything -/
+theorem abbrev_dslash_rel (f d : Nat) (tx : Bytes) (s : Step) (p : List Push) (X ts : List PT)
+    (h1 : step (f + 4) d (X ++ (.operRpath, tx) :: ts) = some (s, p, (.operRpath, tx) :: ts))
+    (h2 : step (f + 5) d (X ++ tSlash :: (stepToks .descendantOrSelf ++ tSlash :: ts)) =
+      some (s, p, tSlash :: (stepToks .descendantOrSelf ++ tSlash :: ts))) :
+    (relPath (f + 5) d (X ++ (.operRpath, tx) :: ts)).map (fun r => (r.1, r.2.2)) =
+      (relPath (f + 6) d (X ++ tSlash :: (stepToks .descendantOrSelf ++ tSlash :: ts))).map (fun r => (r.1, r.2.2)) := by
+  rw [relPath, h1, relPath, h2]
+  simp only [tSlash]
+  have := relPath_dos (f + 1) d ts
+  simp only [tSlash] at this
+  rw [this]
+  cases relPath (f + 4) d ts with
+  | none => rfl
+  | some r => obtain ⟨a, b, c⟩ := r; simp
+
+/-- redundant parentheses: `( e )` in place of a primary expression denotes `e` — the parser returns the tree of the inner
+expression, for every token list that `reparse_or_expr` accepts up to a closing parenthesis -/
+theorem redundant_parens (f d : Nat) (body rest : List PT) (e : Expr) (p : List Push)
+    (h : orExpr (f + 2) d (body ++ tPar2 :: rest) = some (e, p, tPar2 :: rest)) (hF : LemmasParse.Follow 10 rest) :
+    pathExpr (f + 3) d (par body ++ rest) = some (e, p ++ [], rest) := by
+  rw [LemmasParse.par_append]
+  simp only [pathExpr, tPar1]
+  rw [h]
+  simp only [tPar2]
+  exact LemmasParse.postP_stop hF _ _ _ _
+
 /-! ## REC §3.7: `*` and operator names -/
 
 /-- REC §3.7, first rule, for every state of the tokenizer loop: if the input at `parsed` is `*`, it is the multiply operator
@@ -100,9 +257,10 @@ example : (lex [0x32, 0x20, 0x2a, 0x20, 0x33]).toOption.map (·.map (·.kind)) =
 example : (lex [0x32, 0x20, 0x2a, 0x20, 0x2a]).toOption.map (·.map (·.kind)) = some [.number, .operMath, .nametest] := by decide
 
 /-- REC §3.7, second half of the first rule: in operator position an NCName must be recognised as an OperatorName, so an NCName
-that is none of `and`, `or`, `mod`, `div` is an error.  The tokenizer tests the four names as PREFIXES of the remaining input
-(`strncmp`), so this is FALSE: `a orb` is tokenized like `a or b` (finding F350). -/
-theorem lex_opname_disambiguation_fails :
+that is none of `and`, `or`, `mod`, `div` is an error.  The unrepaired tokenizer (`XpConsts.operNameWhole = false`, read off
+the source) tests the four names as PREFIXES of the remaining input (`strncmp`), so this is FALSE: `a orb` is tokenized like
+`a or b` (finding F350; `fixes/F350.diff` makes the switch `true`). -/
+theorem lex_opname_disambiguation_fails (hsw : XpConsts.operNameWhole = false) :
     ¬ ∀ (st : St) (n : Nat), operCtx st.acc = true → Path.ncname st.rest = some n →
         st.rest.take n ∉ [[0x61, 0x6e, 0x64], [0x6f, 0x72], [0x6d, 0x6f, 0x64], [0x64, 0x69, 0x76]] →
         ∃ p, lexStep st = .error p := by
@@ -111,9 +269,68 @@ theorem lex_opname_disambiguation_fails :
     (by decide) (by decide) (by decide)
   have e : lexStep { acc := [⟨.nametest, 0, [0x61]⟩], ntype := true, func := true, pos := 2, rest := [0x6f, 0x72, 0x62] } =
       .ok (({ acc := [⟨.nametest, 0, [0x61]⟩], ntype := true, func := true, pos := 2, rest := [0x6f, 0x72, 0x62] } : St).push .operLog 2) := by
-    rfl
+    have hc : operCtx [(⟨.nametest, 0, [0x61]⟩ : Tok)] = true := by decide
+    simp [lexStep, lexChar, lexChar2, lexChar3, lexChar4, Path.isDigit, hc, lexOper, operName, startsWith, hsw, List.isPrefixOf]
   rw [e] at hp
   cases hp
+
+/-- with the repair in the source (`XpConsts.operNameWhole = true`) the operator branch stores an operator-name token only when
+the NCName at `parsed` is, as a whole, one of the four names — the REC rule -/
+theorem lex_opname_whole_when_repaired (hsw : XpConsts.operNameWhole = true) (st st' : St) (h : lexOper st = .ok st') :
+    startsWith st.rest [0x2a] = true ∨
+    ∃ nm ∈ [[0x6f, 0x72], [0x61, 0x6e, 0x64], [0x6d, 0x6f, 0x64], [0x64, 0x69, 0x76]],
+      Path.ncname st.rest = some nm.length ∧ startsWith st.rest nm = true := by
+  have key : ∀ nm, operName st nm = true → Path.ncname st.rest = some nm.length ∧ startsWith st.rest nm = true := by
+    intro nm hn
+    simp only [operName, hsw, Bool.not_true, Bool.false_or, Bool.and_eq_true, beq_iff_eq] at hn
+    exact ⟨hn.2, hn.1⟩
+  unfold lexOper at h
+  split at h
+  · next hs => exact Or.inl hs
+  · split at h
+    · next hn => exact Or.inr ⟨_, by simp, key _ hn⟩
+    · split at h
+      · next hn => exact Or.inr ⟨_, by simp, key _ hn⟩
+      · split at h
+        · next hn =>
+          simp only [Bool.or_eq_true] at hn
+          rcases hn with hn | hn
+          · exact Or.inr ⟨_, by simp, key _ hn⟩
+          · exact Or.inr ⟨_, by simp, key _ hn⟩
+        · cases h
+
+/-- REC §3.7 for operator names, TRUE for the repaired source: in operator position an NCName that is none of the four
+operator names is an error -/
+theorem lex_opname_disambiguation_repaired (hsw : XpConsts.operNameWhole = true) (st : St) (n : Nat)
+    (hc : operCtx st.acc = true) (hn : Path.ncname st.rest = some n)
+    (hnot : st.rest.take n ∉ [[0x61, 0x6e, 0x64], [0x6f, 0x72], [0x6d, 0x6f, 0x64], [0x64, 0x69, 0x76]]) :
+    ∃ p, lexStep st = .error p := by
+  obtain ⟨c, r, hr, hcr⟩ := LemmasLexRt.ncname_first hn
+  have hstep : lexStep st = lexOper st := by
+    simp only [lexStep, hr]
+    rcases hcr with h | h
+    · rw [LemmasLexRt.lexChar_ident st r h, hc]; rfl
+    · rw [LemmasLexRt.lexChar_high st r h, hc]; rfl
+  have hstar : startsWith st.rest [0x2a] = false := by
+    have : c ≠ 0x2a := by
+      rcases hcr with h | h
+      · have := (Path.identStart_ne h).2.2.2.2.2.2.2.2.2.2.2.2.2.2.2.2.2.2.2; simpa using this
+      · intro e; subst e; simp at h
+    simp [startsWith, hr, List.isPrefixOf, Ne.symm this]
+  have hno : ∀ nm ∈ [[0x61, 0x6e, 0x64], [0x6f, 0x72], [0x6d, 0x6f, 0x64], [0x64, 0x69, 0x76]], operName st nm = false := by
+    intro nm hm
+    cases hop : operName st nm with
+    | false => rfl
+    | true =>
+      exfalso
+      simp only [operName, hsw, Bool.not_true, Bool.false_or, Bool.and_eq_true, beq_iff_eq] at hop
+      have hlen : n = nm.length := by rw [hn] at hop; exact Option.some.inj hop.2
+      have hpre : nm <+: st.rest := List.isPrefixOf_iff_prefix.mp hop.1
+      have : st.rest.take n = nm := by rw [hlen]; exact (List.prefix_iff_eq_take.mp hpre).symm
+      exact hnot (this ▸ hm)
+  refine ⟨st.pos, ?_⟩
+  rw [hstep]
+  simp [lexOper, hstar, hno]
 
 /-- what a string denotes depends on the kinds and texts of its tokens only -/
 theorem parse_eq_of_tokens (s1 s2 : Bytes)
@@ -132,24 +349,65 @@ theorem parse_eq_of_tokens (s1 s2 : Bytes)
       simp only [this]
       cases parseToks (t2.map ptOf) <;> rfl
 
-/-- the witness on whole strings: `a orb` is tokenized exactly like `a or b` (same kinds, same token texts) and `1 mod3` like
-`1 mod 3`, so they denote the same expressions (the check replays them on libyang: accepted) -/
-theorem lex_opname_witnesses :
+/-- the witness on whole strings (unrepaired source): `a orb` is tokenized exactly like `a or b` (same kinds, same token
+texts) and `1 mod3` like `1 mod 3`, so they denote the same expressions (the check replays them on libyang: accepted) -/
+theorem lex_opname_witnesses (hsw : XpConsts.operNameWhole = false) :
     (lex [0x61, 0x20, 0x6f, 0x72, 0x62]).toOption.map (·.map ptOf) =
       some [(.nametest, [0x61]), (.operLog, [0x6f, 0x72]), (.nametest, [0x62])] ∧
     parse [0x61, 0x20, 0x6f, 0x72, 0x62] = parse [0x61, 0x20, 0x6f, 0x72, 0x20, 0x62] ∧
-    parse [0x31, 0x20, 0x6d, 0x6f, 0x64, 0x33] = parse [0x31, 0x20, 0x6d, 0x6f, 0x64, 0x20, 0x33] :=
-  ⟨by decide, parse_eq_of_tokens _ _ (by decide), parse_eq_of_tokens _ _ (by decide)⟩
+    parse [0x31, 0x20, 0x6d, 0x6f, 0x64, 0x33] = parse [0x31, 0x20, 0x6d, 0x6f, 0x64, 0x20, 0x33] := by
+  first
+    | exact ⟨by decide, parse_eq_of_tokens _ _ (by decide), parse_eq_of_tokens _ _ (by decide)⟩
+    | exact absurd hsw (by decide)
 
-/-- What holds: in operator position each of the four operator names, as a whole token (whatever follows it), is recognised
-with the right kind and length; and input that starts with none of them (nor `*`) is rejected. -/
-theorem lex_opname_disambiguation_partial (st : St) (hc : operCtx st.acc = true) (more : Bytes) :
-    (st.rest = [0x6f, 0x72] ++ more → lexStep st = .ok (st.push .operLog 2)) ∧
-    (st.rest = [0x61, 0x6e, 0x64] ++ more → lexStep st = .ok (st.push .operLog 3)) ∧
-    (st.rest = [0x6d, 0x6f, 0x64] ++ more → lexStep st = .ok (st.push .operMath 3)) ∧
-    (st.rest = [0x64, 0x69, 0x76] ++ more → lexStep st = .ok (st.push .operMath 3)) := by
-  refine ⟨?_, ?_, ?_, ?_⟩ <;> intro h <;>
-    simp [lexStep, h, lexChar, lexChar2, lexChar3, lexChar4, Path.isDigit, hc, lexOper, startsWith]
+/-- … and with the repair they are rejected -/
+theorem lex_opname_witnesses_repaired (hsw : XpConsts.operNameWhole = true) :
+    (lex [0x61, 0x20, 0x6f, 0x72, 0x62]).toOption = none ∧ (lex [0x31, 0x20, 0x6d, 0x6f, 0x64, 0x33]).toOption = none := by
+  first
+    | exact ⟨by decide, by decide⟩
+    | exact absurd hsw (by decide)
+
+/-- What holds in both variants: in operator position each of the four operator names that is the whole NCName at `parsed`
+is recognised with the right kind and length. -/
+theorem lex_opname_disambiguation_partial (st : St) (hc : operCtx st.acc = true) (nm more : Bytes)
+    (hr : st.rest = nm ++ more) (hn : Path.ncname st.rest = some nm.length) :
+    (nm = [0x6f, 0x72] → lexStep st = .ok (st.push .operLog 2)) ∧
+    (nm = [0x61, 0x6e, 0x64] → lexStep st = .ok (st.push .operLog 3)) ∧
+    (nm = [0x6d, 0x6f, 0x64] → lexStep st = .ok (st.push .operMath 3)) ∧
+    (nm = [0x64, 0x69, 0x76] → lexStep st = .ok (st.push .operMath 3)) := by
+  have hop : operName st nm = true := by
+    have h1 : startsWith st.rest nm = true := by simp [startsWith, hr]
+    simp [operName, h1, hn]
+  have hno : ∀ x : Bytes, startsWith (nm ++ more) x = false → operName st x = false := by
+    intro x hx; simp [operName, hr, hx]
+  refine ⟨?_, ?_, ?_, ?_⟩ <;> intro e <;> subst e
+  · simp [lexStep, hr, lexChar, lexChar2, lexChar3, lexChar4, Path.isDigit, hc, lexOper, hop, startsWith, List.isPrefixOf]
+  · have h1 := hno [0x6f, 0x72] (by simp [startsWith, List.isPrefixOf])
+    simp [lexStep, hr, lexChar, lexChar2, lexChar3, lexChar4, Path.isDigit, hc, lexOper, hop, h1, startsWith, List.isPrefixOf]
+  · have h1 := hno [0x6f, 0x72] (by simp [startsWith, List.isPrefixOf])
+    have h2 := hno [0x61, 0x6e, 0x64] (by simp [startsWith, List.isPrefixOf])
+    simp [lexStep, hr, lexChar, lexChar2, lexChar3, lexChar4, Path.isDigit, hc, lexOper, hop, h1, h2, startsWith, List.isPrefixOf]
+  · have h1 := hno [0x6f, 0x72] (by simp [startsWith, List.isPrefixOf])
+    have h2 := hno [0x61, 0x6e, 0x64] (by simp [startsWith, List.isPrefixOf])
+    simp [lexStep, hr, lexChar, lexChar2, lexChar3, lexChar4, Path.isDigit, hc, lexOper, hop, h1, h2, startsWith, List.isPrefixOf]
+
+/-! ### F351 and F352: white space around `::`, `*` as a prefix -/
+
+/-- unrepaired source: `child :: a` is rejected (REC §3.7 allows white space between any two tokens); repaired: it has the
+tokens of `child::a` -/
+theorem lex_axis_ws (b : Bool) (hsw : XpConsts.axisWs = b) :
+    (lex [0x63, 0x68, 0x69, 0x6c, 0x64, 0x20, 0x3a, 0x3a, 0x20, 0x61]).toOption.map (·.map ptOf) =
+      if b then some [(.axisname, [0x63, 0x68, 0x69, 0x6c, 0x64]), (.dcolon, [0x3a, 0x3a]), (.nametest, [0x61])] else none := by
+  cases b
+  · first | decide | exact absurd hsw (by decide)
+  · first | decide | exact absurd hsw (by decide)
+
+/-- unrepaired source: `*:a` is one NameTest token (not XPath 1.0); repaired: it is rejected -/
+theorem lex_star_prefix (b : Bool) (hsw : XpConsts.starNoPrefix = b) :
+    (lex [0x2a, 0x3a, 0x61]).toOption.map (·.map ptOf) = if b then none else some [(.nametest, [0x2a, 0x3a, 0x61])] := by
+  cases b
+  · first | decide | exact absurd hsw (by decide)
+  · first | decide | exact absurd hsw (by decide)
 
 example : (lex [0x61, 0x20, 0x6f, 0x72, 0x20, 0x62]).toOption.map (·.map (·.kind)) = some [.nametest, .operLog, .nametest] := by decide
 /-- … while the same bytes at the start or after an operator are a name test (an element called `or`) -/
@@ -171,10 +429,12 @@ theorem lex_total (s : Bytes) :
     | .at p, _ => exact Or.inr ⟨p, rfl⟩
     | .fuel, h => exact absurd h this
 
-/-- the tokens are non-overlapping substrings of the input, in order: read from the last token backwards (`Lex.Chain`), every
-token's text is the slice of the input at its `tok_pos` of length `tok_len`, and every token ends at or before the offset
-of the next one -/
-theorem lex_tokens_in_order (s : Bytes) (ts : List Tok) (h : lex s = .ok ts) : ∃ bound, Chain s bound ts.reverse :=
+/-- the tokens are non-overlapping substrings of the input, in order, and they cover it except for white space: read from
+the last token backwards (`Lex.Chain`), every token's text is the slice of the input at its `tok_pos` of length `tok_len`,
+every token ends at or before the offset of the next one, and every byte between two tokens, before the first and after the
+last token (`bound ≥ length`) is white space or the `$` in front of a variable name (`Lex.GapOK`) -/
+theorem lex_tokens_in_order (s : Bytes) (ts : List Tok) (h : lex s = .ok ts) :
+    ∃ bound, s.length ≤ bound ∧ Chain s bound ts.reverse :=
   lex_tokens_slices s ts h
 
 example : ∃ ts, lex [0x61, 0x20, 0x2f, 0x2f, 0x62] = .ok ts ∧ ts.map (fun t => (t.pos, t.len)) = [(0, 1), (2, 2), (4, 1)] :=
